@@ -40,7 +40,9 @@ EXTRA_TOP = {
     "created  by": b"someone", "encoding": b"GBK", "creation date": 1234567890, "x-bin": b"\xff\xfe\x00",
     "nodes": [[b"host", 6881]], "zz": {b"b": 1, b"a": []}, "azureus_properties": {b"dht_backup_enable": 1},
 }
-EXTRA_INFO = {"x_cross_seed": b"abc", "unknown-int": -7, "bin": b"\x80\x81", "entropy": [1, [b"x"]], "ssl-cert": b""}
+EXTRA_INFO = {"x_cross_seed": b"abc", "unknown-int": -7, "bin": b"\x80\x81", "entropy": [1, [b"x"]], "ssl-cert": b"",
+              # info keys that merely share their name with a top-level editable field: part of the info-hash, not "the field"
+              "url-list": [b"http://inside.example/info"], "announce": b"http://inside.example/a", "httpseeds": [b"http://inside.example/h"]}
 
 
 def small_tree():
@@ -72,8 +74,15 @@ def source_strategy(cli_safe_opts=True):
 def strategy(tier):
     @st.composite
     def case(draw):
-        return {"tree": draw(small_tree()), "source": draw(source_strategy()),
-                "edits": draw(st.lists(edits.edit_request(), min_size=1, max_size=6))}
+        reqs = draw(st.lists(edits.edit_request(), min_size=1, max_size=6))
+        if len(reqs) >= 2 and draw(st.sampled_from([True, False, False])):
+            # a library caller that keeps one request dict and sends it again later (after other edits): same request, same effect
+            libs = [i for i, r in enumerate(reqs) if r["route"] == "lib"]
+            if libs:
+                k = draw(st.integers(0, len(libs) - 1))
+                again = dict(reqs[libs[k]], resend=k)
+                reqs.append(again)
+        return {"tree": draw(small_tree()), "source": draw(source_strategy()), "edits": reqs}
     return case()
 
 
@@ -117,10 +126,17 @@ def spans(m):
     return out
 
 
-def apply_edit(req, path):
+def apply_edit(req, path, sent=None):
+    """sent: list collecting the dict objects handed to edit_torrent (a caller may send the very same object again)."""
     if req["route"] == "lib":
+        if req.get("resend") is not None and sent:
+            args = sent[req["resend"] % len(sent)][1]       # the same dict object as in an earlier call
+        else:
+            args = edits.edit_to_lib_args(req)
+        if sent is not None:
+            sent.append((req, args))
         with target.quiet():
-            target.edit_mod.edit_torrent(path, edits.edit_to_lib_args(req))
+            target.edit_mod.edit_torrent(path, args)
     else:
         target.execute(edits.edit_to_cli(req, path))
 
@@ -138,6 +154,7 @@ def run_case(case):
         prev = m0
         touched = []
         set_fields = set()
+        sent = []
         clear_after_set = False
         cli_without_private = False
         for i, req in enumerate(case["edits"]):
@@ -155,7 +172,7 @@ def run_case(case):
                 # comment goes with it is not judged ("the comment field" is ambiguous for that key)
                 loose = set(loose) | {b"comment"}
             try:
-                apply_edit(req, path)
+                apply_edit(req, path, sent)
                 m = vmeta.Meta.from_file(path)
             except Exception as e:
                 return Outcome(Violation("C07:exception:%s:%s" % (req["route"], type(e).__name__),
